@@ -32,9 +32,9 @@ ASSUMPTIONS = [
 ]
 
 
-def program_strategy(max_convs=4, max_items=5, max_choices=40, preempts=3, blob=0):
+def program_strategy(max_convs=4, max_items=5, max_choices=40, preempts=3, blob=0, min_blob=0):
     return st.fixed_dictionaries(dict(
-        convs=st.lists(TP.c02_params(max_items=max_items, max_blob=blob), min_size=1, max_size=max_convs),
+        convs=st.lists(TP.c02_params(max_items=max_items, max_blob=blob, min_blob=min_blob), min_size=1, max_size=max_convs),
         sparse=st.fixed_dictionaries(dict(
             pre=st.lists(st.tuples(st.one_of(st.integers(0, 30), st.integers(0, 400)), st.integers(0, 5)).map(list),
                          max_size=max_choices),
@@ -143,7 +143,8 @@ class Exhaustive(Part):
         D.preimport()
 
     def strategy(self, ctx):
-        return program_strategy(max_convs=2, max_items=2, max_choices=0, preempts=0)
+        # half of the payloads are 8-12 KB blobs: sizes at which an implementation may treat header and payload separately
+        return program_strategy(max_convs=2, max_items=2, max_choices=0, preempts=0, blob=12000, min_blob=8200)
 
     def run(self, case, ctx):
         from vlib import explore
